@@ -195,3 +195,59 @@ func (u *VerifUnion) Delete(src int, d edge.DeleteGroupMessage) ([]edge.Message,
 	err := u.n.Delete(src, d)
 	return u.out.take(), err
 }
+
+// ---------------------------------------------------------------------------------------------
+
+// VerifLive is a real UnionNode / JoinNode running its own runF (edge.multiConsumer: one reader goroutine per
+// parent) on real channel edges; the caller feeds and closes the parent edges from goroutines of its own.
+type VerifLive struct {
+	ins  []edge.StatsEdge
+	out  *verifCaptureEdge
+	done chan error
+}
+
+func verifLiveIns(n *node, typ pipeline.EdgeType, parents int) {
+	n.ins = make([]edge.StatsEdge, parents)
+	for i := range n.ins {
+		n.ins[i] = edge.NewStatsEdge(edge.NewChannelEdge(typ, 8))
+	}
+	n.timer = timer.NewNoOp()
+	n.statMap = new(expvar.Map).Init()
+}
+
+// VerifLiveUnion starts runUnion of a real UnionNode.
+func VerifLiveUnion(p *pipeline.UnionNode, parents int) (*VerifLive, error) {
+	n, err := newUnionNode(nil, p, nil)
+	if err != nil {
+		return nil, err
+	}
+	out := &verifCaptureEdge{typ: p.Provides()}
+	verifLiveIns(&n.node, p.Wants(), parents)
+	n.outs = []edge.StatsEdge{out}
+	l := &VerifLive{ins: n.ins, out: out, done: make(chan error, 1)}
+	go func() { l.done <- n.runUnion(nil) }()
+	return l, nil
+}
+
+// VerifLiveJoin starts runJoin of a real JoinNode.
+func VerifLiveJoin(p *pipeline.JoinNode, parents int) (*VerifLive, error) {
+	n, err := newJoinNode(nil, p, nil)
+	if err != nil {
+		return nil, err
+	}
+	out := &verifCaptureEdge{typ: p.Provides()}
+	verifLiveIns(&n.node, p.Wants(), parents)
+	n.outs = []edge.StatsEdge{out}
+	l := &VerifLive{ins: n.ins, out: out, done: make(chan error, 1)}
+	go func() { l.done <- n.runJoin(nil) }()
+	return l, nil
+}
+
+// In is the edge of parent i (Collect messages, then Close it).
+func (l *VerifLive) In(i int) edge.Edge { return l.ins[i] }
+
+// Wait blocks until the node's runF returned (all parent edges closed, Finish done) and returns what it emitted.
+func (l *VerifLive) Wait() ([]edge.Message, error) {
+	err := <-l.done
+	return l.out.take(), err
+}
